@@ -37,6 +37,8 @@ def nest_doc(rng):
 
 def extra_doc(rng):
     r = rng.random()
+    if r > 0.85:
+        return rng.choice(["{}", "# {}", "- {}", "> {}", "[{}](/u)", "| {} |\n|---|"]).replace("{}", docs.flanking_soup(rng)) + "\n"
     return pair_doc(rng) if r < 0.4 else nest_doc(rng) if r < 0.6 else delim_doc(rng)
 
 
